@@ -93,6 +93,35 @@ theorem affine (Li : Nat → Nat → K) (p0 p1 : Sys K) (t α β : K) :
   · simp only [interpolate]; exact mix_affine t α β _ _
   · simp only [interpolate, red_mix]; exact mix_affine t α β _ _
 
+/-- T3a.  Exact distance from the end points: `X(alpha) - X(1) = (alpha - 1)(X1 - X0)` and
+    `X(alpha) - X(0) = alpha (X1 - X0)` for every alpha, arbitrarily close to an end point included. -/
+theorem mix_sub_endpoints (α a b : K) :
+    mix α a b - mix 1 a b = (α - 1) * (b - a) ∧ mix α a b - mix 0 a b = α * (b - a) := by
+  unfold mix; constructor <;> ring
+
+/-- T3b.  No neighbourhood of an end point is flat: the interpolated value equals the end value only AT the end
+    point, unless the two systems agree in that entry. -/
+theorem no_flat_neighbourhood (α a b : K) :
+    (mix α a b = mix 1 a b ↔ α = 1 ∨ a = b) ∧ (mix α a b = mix 0 a b ↔ α = 0 ∨ a = b) := by
+  have h := mix_sub_endpoints α a b
+  constructor
+  · rw [← sub_eq_zero, h.1, mul_eq_zero, sub_eq_zero, sub_eq_zero]
+    exact ⟨fun h => h.imp id Eq.symm, fun h => h.imp id Eq.symm⟩
+  · rw [← sub_eq_zero, h.2, mul_eq_zero, sub_eq_zero]
+    exact ⟨fun h => h.imp id Eq.symm, fun h => h.imp id Eq.symm⟩
+
+/-- T3c.  Counterexample for the rule "snap alpha to the end point when `isclose(alpha, 1)`" (rtol 1e-5): at
+    `alpha = 1 - 8e-6` between the entries 0 and 1 the snapped value is 1 instead of 1 - 8e-6, and the second
+    difference with step 8e-6 ending at alpha = 1 - 8e-6 does not vanish: the snapped interpolation is not affine. -/
+theorem snapping_is_not_affine :
+    let near0 : Rat → Bool := fun α => decide (|α| ≤ 1 / 100000000)
+    let near1 : Rat → Bool := fun α => decide (|α - 1| ≤ 1 / 100000 + 1 / 100000000)
+    let h : Rat := 8 / 1000000
+    mixSnap near0 near1 (1 - h) 0 1 = 1 ∧ mix (1 - h) (0 : Rat) 1 = 1 - h ∧
+    mixSnap near0 near1 (1 - 3 * h) 0 1 - 2 * mixSnap near0 near1 (1 - 2 * h) 0 1 + mixSnap near0 near1 (1 - h) 0 1 ≠ 0 ∧
+    mix (1 - 3 * h) (0 : Rat) 1 - 2 * mix (1 - 2 * h) 0 1 + mix (1 - h) 0 1 = 0 := by
+  decide +kernel
+
 /-- Only the matrices present in BOTH systems survive `__init__` (the others are dropped with a warning). -/
 theorem prepare_keys [DecidableEq K] (s : Sys K) (otherKeys : List Name) (Rnew : List Vec3) (k : Name) :
     k ∈ (prepare s otherKeys Rnew).mats.map (·.1) ↔ k ∈ s.mats.map (·.1) ∧ k ∈ otherKeys := by
